@@ -36,7 +36,7 @@ CLAIMED = {
         note="Not decided: the exhaustive state-space claim over operation sequences and sizes (value reasoning). The rule found a genuine defect on the pinned tree (sentinel wrap), repaired by fix commit f7468a8.",
         design_ref="DESIGN.md §4 C05"),
     "C01": dict(
-        technique="MIR must-pass-through (success-edge dominance of Ok exits) + who-may-call tables over the call graph",
+        technique="MIR must-pass-through (success-edge dominance of Ok exits) + who-may-call tables over the call graph + sign-abstraction direction analysis of in-place block-move loops",
         text="Partial (protocol skeleton): on every path an acknowledged put/update/delete is dominated by a successful WAL append; the log window "
              "(record_checkpoint) moves only after apply_records succeeded on the WAL's own pending records, at the reviewed call sites only; open returns "
              "Ok only after recover_wal replayed records_after(header.wal_sequence); drop commits on the dirty edge and every acknowledged append sets dirty; the in-place block move that shifts committed bytes when the WAL grows walks away from its destination (memmove direction rule).",
